@@ -491,11 +491,29 @@ func (vc *VC) specCall(x CCall, env *SpecEnv) Term {
 				if sf := vc.w.specByName[name]; sf != nil {
 					return vc.applySpecArgs(sf, x.Args, env)
 				}
+				if i := strings.Index(x.Fn, "#"); i > 0 {
+					if t, ok := vc.specPureFunc(x.Fn[:i], x.Fn[i+1:], x.Args, env); ok {
+						return t
+					}
+				}
+				if t, err := vc.w.resolveTypeText(env.pkg, x.Fn); err == nil && len(x.Args) == 1 {
+					return vc.specConv(t, vc.spec(x.Args[0], env))
+				}
 				return vc.specFail("unknown qualified function %s", x.Fn)
 			}
 		}
 		recv := vc.spec(x.Recv, env)
-		return vc.specMethod(recv, x.Fn, x.Args, env)
+		mname := x.Fn
+		if _, ok := x.Recv.(CIdent); ok {
+			mname = mname[strings.LastIndex(mname, ".")+1:]
+		}
+		return vc.specMethod(recv, mname, x.Args, env)
+	}
+	// pure Go function of the repository: F#k(args) is result k of F
+	if i := strings.Index(x.Fn, "#"); i > 0 {
+		if t, ok := vc.specPureFunc(x.Fn[:i], x.Fn[i+1:], x.Args, env); ok {
+			return t
+		}
 	}
 	args := func() []Term {
 		var out []Term
@@ -571,21 +589,26 @@ func (vc *VC) specCall(x CCall, env *SpecEnv) Term {
 	}
 	// conversion-style T(x): Go type name used as a function: concrete -> interface injection or identity
 	if t, err := vc.w.resolveTypeText(env.pkg, x.Fn); err == nil && len(x.Args) == 1 {
-		v := vc.spec(x.Args[0], env)
-		ts := vc.ss.sortOf(t)
-		if ts == v.Sort {
-			v.T = t
-			return v
-		}
-		if si := vc.ss.info[ts]; si != nil && si.Kind == "iface" && v.T != nil {
-			return vc.ss.inj(ts, v, v.T)
-		}
-		// struct constructor with one field: T(x)
-		if si := vc.ss.info[ts]; si != nil && si.Kind == "struct" && len(si.Fields) == 1 && si.Fields[0].Sort == v.Sort {
-			return Term{fmt.Sprintf("(mk.%s %s)", ts, v.S), ts, t}
-		}
+		return vc.specConv(t, vc.spec(x.Args[0], env))
 	}
 	return vc.specFail("unknown function %s", x.Fn)
+}
+
+// specConv: T(x) in a contract: identity on equal sorts (re-typing), injection
+// into an interface, or construction of a one-field struct.
+func (vc *VC) specConv(t types.Type, v Term) Term {
+	ts := vc.ss.sortOf(t)
+	if ts == v.Sort {
+		v.T = t
+		return v
+	}
+	if si := vc.ss.info[ts]; si != nil && si.Kind == "iface" && v.T != nil {
+		return vc.ss.inj(ts, v, v.T)
+	}
+	if si := vc.ss.info[ts]; si != nil && si.Kind == "struct" && len(si.Fields) == 1 && si.Fields[0].Sort == v.Sort {
+		return Term{fmt.Sprintf("(mk.%s %s)", ts, v.S), ts, t}
+	}
+	return vc.specFail("conversion %s(%s) not supported in contracts", t, v.Sort)
 }
 
 // specMethod: recv.f(args) where recv is a term. Supports pure interface
@@ -698,3 +721,35 @@ func (vc *VC) applySpec(sf *SpecFunc, args []Term) Term {
 
 // goConst: value of a Go constant by qualified name (used by the query builder)
 func constString(v constant.Value) string { return v.ExactString() }
+
+// specPureFunc: F#k(args) — result k of a repository function whose contract
+// is declared `pure` (an uninterpreted function of the arguments, constrained
+// by the function's own verified contract at its call sites).
+func (vc *VC) specPureFunc(name, kText string, argEs []CExpr, env *SpecEnv) (Term, bool) {
+	key := env.pkg + "." + name
+	if strings.Contains(name, ".") {
+		key = vc.w.resolveQualified(env.pkg, name)
+	}
+	fi := vc.w.funcs[key]
+	fc := vc.w.cs.Funcs[key]
+	if fi == nil || fc == nil || !fc.Pure {
+		return Term{}, false
+	}
+	k := 0
+	fmt.Sscan(kText, &k)
+	sig := fi.Obj.Type().(*types.Signature)
+	if k >= sig.Results().Len() {
+		return Term{}, false
+	}
+	e2 := &SpecEnv{vars: map[string]Value{}, old: map[string]Value{}, pkg: fc.Pkg, vc: vc}
+	pn := vc.paramNames(fc, sig)
+	if len(argEs) != len(pn) {
+		return Term{}, false
+	}
+	for i, n := range pn {
+		v := vc.spec(argEs[i], env)
+		v = vc.convertTo(v, v.T, sig.Params().At(i).Type(), token.NoPos)
+		e2.old[n] = v
+	}
+	return vc.pureResult(fc, sig, k, e2, pn, ""), true
+}
